@@ -52,6 +52,10 @@ type Stats struct {
 }
 
 // RunJobs explores all jobs on n workers.
+// ExploreDeadline, when set, stops the dispatch of further jobs (results of
+// jobs not started stay nil).
+var ExploreDeadline time.Time
+
 // RecheckRate is the fraction of byte-domain verdicts re-checked by the solver.
 var RecheckRate = 0.02
 
@@ -96,6 +100,9 @@ func RunJobs(p *Program, jobs []*Job, n int, backend string, wantFixtures bool, 
 				mu.Unlock()
 				if i >= len(jobs) {
 					break
+				}
+				if !ExploreDeadline.IsZero() && time.Now().After(ExploreDeadline) {
+					continue // time budget of the run used up: the job is reported as not run
 				}
 				results[i] = w.Explore(jobs[i], wantFixtures)
 				if os.Getenv("VERIF_PROGRESS") != "" {
